@@ -383,6 +383,10 @@ func verifC10_Pool() {
 
 	requests := verifBound("clientRequests")
 	failedRequests := 0
+	// reference breaker (count-based window 2, minimum 2, threshold 50%, wait 1h under a
+	// constant clock): open once the last two recorded client requests contain a failure
+	breakerOpen := false
+	var recorded []bool
 	for k := 0; k < requests; k++ {
 		ctx, _, _ := vClientRequest([]byte{1, 2}, stream)
 		vNSends, vDeadline = 0, false
@@ -408,6 +412,10 @@ func verifC10_Pool() {
 		result := sp.handle(ctx, false)
 		resp, _ := ctx.GetOutputResponse().(*httpprot.Response)
 		verifAssert(resp != nil, "a-response-is-always-set")
+		if hasBreaker && breakerOpen {
+			// buffered or stream, with or without retry: an open breaker lets nothing through
+			verifAssert(result == resultShortCircuited, "open-breaker-short-circuits-every-call")
+		}
 		if result == resultShortCircuited {
 			verifAssert(hasBreaker && vNSends == 0 && resp.StatusCode() == 503, "short-circuited-call-contacts-no-server-503")
 			// the breaker (window 2, minimum 2, threshold 50%) records one outcome per client request
@@ -418,6 +426,10 @@ func verifC10_Pool() {
 		verifAssert(vNSends >= 1, "at-least-one-attempt")
 		if result != "" {
 			failedRequests++
+		}
+		recorded = append(recorded, result != "")
+		if n := len(recorded); n >= 2 && (recorded[n-1] || recorded[n-2]) {
+			breakerOpen = true
 		}
 		limit := 1
 		if hasRetry && !stream {
